@@ -426,6 +426,7 @@ def check_property(prop, tier, seed):
 
     # (5) pure probes
     probe = run_probe(prop, tier, seed, th) if P.get('probe') else None
+    det = run_determinism(tier, seed, th) if P.get('determinism') else None
 
     findings = [f for f in load_findings() if f.get('property') == prop and f.get('kind') == 'known']
     known_lines = []
@@ -448,6 +449,9 @@ def check_property(prop, tier, seed):
     if probe:
         for v in probe.get('violations', []):
             violations.append((v['msg'], v))
+    if det:
+        for v in det.get('violations', []):
+            violations.append((v['msg'], v))
 
     cov = {
         'obligations': max(1, aud['obligations']), 'discharged': aud['discharged'] if okb else 0,
@@ -468,6 +472,8 @@ def check_property(prop, tier, seed):
     }
     if probe:
         cov['probe'] = {k: v for k, v in probe.items() if k not in ('violations',)}
+    if det:
+        cov['determinism_reruns'] = {k: v for k, v in det.items() if k not in ('violations',)}
     return finish(prop, tier, seed, cov, violations, known_lines, time.time() - t0)
 
 
@@ -491,6 +497,47 @@ def finish(prop, tier, seed, cov, violations, known_lines, wall):
         return 1
     print('OK property=%s tier=%s obligations=%d discharged=%d corr_ops=%d wall=%.0fs' % (prop, tier, cov['obligations'], cov['discharged'], cov['correspondence']['ops'], wall))
     return 0
+
+
+def run_determinism(tier, seed, th):
+    """C10 runtime half: execute the same generated history in fresh processes with different
+    GOMAXPROCS (Go map seeds differ per process) and compare the complete output streams, which
+    include every state delta, every hub event and the application hash after every block."""
+    cdir = os.path.join(CACHE, th, 'det_%s_%d' % (tier, seed))
+    summ = os.path.join(cdir, 'summary.json')
+    if os.path.exists(summ):
+        return json.load(open(summ))
+    os.makedirs(cdir, exist_ok=True)
+    n = 3 if tier == 'quick' else 16
+    blocks = 120 if tier == 'quick' else 400
+    res = {'histories': 0, 'lines_compared': 0, 'apphashes_compared': 0, 'violations': [], 'procs': [1, 4, 16]}
+    for i in range(n):
+        prof = ['lifecycle', 'money', 'gov', 'quota', 'extreme'][i % 5]
+        outs = []
+        ops = os.path.join(cdir, 'd%d.ops' % i)
+        for procs in res['procs']:
+            env = dict(os.environ, GOMAXPROCS=str(procs))
+            p = subprocess.run([os.path.join(BIN, 'hubsim'), 'gen', '-seed', str(seed * 77 + i), '-blocks', str(blocks), '-profile', prof, '-ops', ops],
+                               stdout=subprocess.PIPE, stderr=subprocess.PIPE, env=env, timeout=1800)
+            if p.returncode != 0:
+                raise Broken('determinism run failed: ' + p.stderr.decode(errors='replace')[-800:])
+            outs.append(p.stdout)
+        res['histories'] += 1
+        lines = outs[0].count(b'\n')
+        res['lines_compared'] += lines * (len(outs) - 1)
+        res['apphashes_compared'] += outs[0].count(b'\nA apphash=') * (len(outs) - 1)
+        for k in range(1, len(outs)):
+            if outs[k] != outs[0]:
+                a, b = outs[0].split(b'\n'), outs[k].split(b'\n')
+                j = next((x for x in range(min(len(a), len(b))) if a[x] != b[x]), min(len(a), len(b)))
+                res['violations'].append({'msg': 'same history, different result (GOMAXPROCS %d vs %d)' % (res['procs'][0], res['procs'][k]),
+                                          'failing_input': ops, 'line': j, 'run1': a[j][:300].decode(errors='replace') if j < len(a) else '',
+                                          'run2': b[j][:300].decode(errors='replace') if j < len(b) else ''})
+                break
+        if not res['violations']:
+            os.remove(ops)
+    json.dump(res, open(summ, 'w'), indent=1)
+    return res
 
 
 def run_probe(prop, tier, seed, th):
